@@ -1,6 +1,6 @@
 (* C08 — proofs, part 3: the 2x2 closed form in exact real arithmetic (instance c08_R_ops of the generic model). *)
 From Coq Require Import Reals List ZArith Bool Lra Lia.
-From DuneV Require Import C08_Model C08_Spec.
+From DuneV Require Import Params_gen C08_Model C08_Spec.
 Import ListNotations.
 Local Open Scope R_scope.
 
@@ -361,3 +361,53 @@ Qed.
 (* ---- n = 1 ---- *)
 Lemma P_1x1_exact : forall m : R, let '(w, v) := c08_eig1 c08_R_ops m in w = m /\ m * v = w * v /\ v * v = 1.
 Proof. intros m. simpl. repeat split; ring. Qed.
+
+(* ---- the variant of the source text (re-read on every run): relative identity threshold, rotated second vector ---- *)
+Lemma P_2x2_source_variant : c08_param_id_rel = true /\ c08_param_perp = true.
+Proof. split; reflexivity. Qed.
+
+(* hence the routine AS THE SOURCE NOW WRITES IT (threshold factor thrid >= 0, e.g. epsilon) is scale invariant *)
+Lemma P_2x2_source_scale : forall thrq thrid a b d s, 0 < s -> 0 <= thrid ->
+  c08_thr_eff c08_param_id_rel thrid (a, b, b, d) < c08_dev2 (a, b, b, d) (c08_l0 a b d) \/ c08_dev2 (a, b, b, d) (c08_l0 a b d) = 0 ->
+  exists r', c08_eigenvaluesvectors2 c08_R_ops c08_param_id_rel c08_param_perp thrq thrid (c08_scale2 s (a, b, b, d)) = C08_Ok r' /\
+             fst r' = (s * c08_l0 a b d, s * c08_l1 a b d) /\ c08_decomp2 (c08_scale2 s (a, b, b, d)) r'.
+Proof. exact (P_2x2_rel_scale c08_param_perp). Qed.
+
+(* ---- the only inexact branch (thresholds > 0): the identity special case has residual at most the threshold ---- *)
+Lemma P_2x2_identity_residual : forall rel perp thrq thrid a b d,
+  c08_dev2 (a, b, b, d) (c08_l0 a b d) <= c08_thr_eff rel thrid (a, b, b, d) ->
+  let t := c08_thr_eff rel thrid (a, b, b, d) in
+  c08_eigenvaluesvectors2 c08_R_ops rel perp thrq thrid (a, b, b, d) = C08_Ok ((c08_l0 a b d, c08_l1 a b d), ((1, 0), (0, 1))) /\
+  c08_evals2_ok (a, b, b, d) (c08_l0 a b d, c08_l1 a b d) /\
+  (* A e0 - l0 e0 = (a - l0, b) and A e1 - l1 e1 = (b, d - l1), componentwise at most the (effective) threshold *)
+  Rabs (a - c08_l0 a b d) <= t /\ Rabs b <= t /\ Rabs (d - c08_l1 a b d) <= t.
+Proof.
+  intros rel perp thrq thrid a b d H t. fold t in H.
+  split; [|split; [apply evals_ok|]].
+  - unfold c08_eigenvaluesvectors2. rewrite ev2_sym. cbn [c08_bind]. fold (c08_l0 a b d) (c08_l1 a b d).
+    rewrite evec2_identity by exact H. reflexivity.
+  - unfold c08_dev2 in H. set (l0 := c08_l0 a b d) in *.
+    pose proof (Rmax_l (Rabs b + Rabs (d - l0)) (Rmax (Rabs (a - l0) + Rabs b) 0)) as M1.
+    pose proof (Rmax_r (Rabs b + Rabs (d - l0)) (Rmax (Rabs (a - l0) + Rabs b) 0)) as M2.
+    pose proof (Rmax_l (Rabs (a - l0) + Rabs b) 0) as M3.
+    pose proof (Rabs_pos (a - l0)). pose proof (Rabs_pos b). pose proof (Rabs_pos (d - l0)).
+    assert (d - c08_l1 a b d = - (a - l0)) as E by (unfold l0, c08_l0, c08_l1, c08_p; field).
+    rewrite E, Rabs_Ropp. repeat split; lra.
+Qed.
+
+(* complete characterisation for ANY non-negative threshold (absolute or relative): the routine never fails on symmetric input;
+   either it returns an exact eigen-decomposition, or it took the identity special case and the residuals are <= threshold *)
+Lemma P_2x2_any_threshold : forall rel perp thrq thrid a b d,
+  let t := c08_thr_eff rel thrid (a, b, b, d) in 0 <= t ->
+  exists vs, c08_eigenvaluesvectors2 c08_R_ops rel perp thrq thrid (a, b, b, d) = C08_Ok ((c08_l0 a b d, c08_l1 a b d), vs) /\
+    c08_evals2_ok (a, b, b, d) (c08_l0 a b d, c08_l1 a b d) /\
+    (c08_evecs2_ok (a, b, b, d) (c08_l0 a b d, c08_l1 a b d) vs \/
+     (vs = ((1, 0), (0, 1)) /\ Rabs (a - c08_l0 a b d) <= t /\ Rabs b <= t /\ Rabs (d - c08_l1 a b d) <= t)).
+Proof.
+  intros rel perp thrq thrid a b d t Ht. fold t.
+  destruct (Rle_lt_dec (c08_dev2 (a, b, b, d) (c08_l0 a b d)) t) as [Hle|Hlt].
+  - destruct (P_2x2_identity_residual rel perp thrq thrid a b d Hle) as (H1 & H2 & H3).
+    exists ((1, 0), (0, 1)). split; [exact H1|]. split; [exact H2|]. right. split; [reflexivity | exact H3].
+  - destruct (P_2x2_general rel perp thrq thrid a b d Ht (or_introl Hlt)) as ([ev vs] & H1 & H2 & H3).
+    simpl in H2. subst ev. exists vs. split; [exact H1|]. destruct H3 as [H3 H4]. split; [exact H3|]. left. exact H4.
+Qed.
